@@ -40,13 +40,18 @@ func (s *inst) Drop() {
 }
 
 type backend struct {
-	insts    map[string][]*inst
-	failNext bool
+	insts      map[string][]*inst
+	failNext   bool
+	duringOpen func() // runs inside the backend's OpenDB (the wrapper calls it outside its lock): a concurrent caller
 }
 
 var errOpen = errors.New("backend: open failed")
 
 func (b *backend) OpenDB(name string) (kvdb.Store, error) {
+	if f := b.duringOpen; f != nil {
+		b.duringOpen = nil
+		f()
+	}
 	if b.failNext {
 		b.failNext = false
 		return nil, errOpen
@@ -61,15 +66,20 @@ func (b *backend) Flush(id []byte) error                       { return nil }
 func (b *backend) Initialize([]string, []byte) ([]byte, error) { return nil, nil }
 func (b *backend) Close() error                                { return nil }
 
-var opNames = []string{"open(a)", "open(b)", "close(a)", "close(b)", "drop(a)", "drop(b)", "open-backend-fails(a)", "open-backend-fails(b)", "drop-with-reentrant-drop(a)", "drop-with-reentrant-drop(b)", "close-backend-errors(a)", "close-backend-errors(b)"}
+var opNames = []string{"open(a)", "open(b)", "close(a)", "close(b)", "drop(a)", "drop(b)", "open-backend-fails(a)", "open-backend-fails(b)", "drop-with-reentrant-drop(a)", "drop-with-reentrant-drop(b)", "close-backend-errors(a)", "close-backend-errors(b)",
+	"open-backend-fails-while-closed-handle-is-dropped(a)", "open-backend-fails-while-closed-handle-is-dropped(b)",
+	"open-while-closed-handle-is-dropped(a)", "open-while-closed-handle-is-dropped(b)"}
 
-const nOps = 12
+const nOps = 16
+const nOpsBase = 12 // the alphabet without the operations that act from inside the backend's OpenDB
 
 type nameModel struct {
 	ref   int
 	opens int
 	cur   kvdb.Store // latest store pointer returned for this name
 	gen   int        // backend instances expected
+	// dropped: Drop was called through cur since the last successful open of the name
+	dropped bool
 }
 
 func run(c *core.Ctx, wrapper string, seq []int) (ok bool) {
@@ -110,6 +120,7 @@ func run(c *core.Ctx, wrapper string, seq []int) (ok bool) {
 				m.cur = st
 				m.ref++
 				m.opens++
+				m.dropped = false
 			case 1: // close
 				if m.cur == nil {
 					return
@@ -131,6 +142,7 @@ func run(c *core.Ctx, wrapper string, seq []int) (ok bool) {
 					return
 				}
 				m.cur.Drop()
+				m.dropped = true
 			case 3: // open while the backend refuses: must fail and leave no trace
 				if m.ref > 0 {
 					return // served from the cache, the backend is not asked
@@ -157,6 +169,33 @@ func run(c *core.Ctx, wrapper string, seq []int) (ok bool) {
 					return
 				}
 				m.ref--
+			case 6, 7: // while the backend opens the database (6: and then fails), the previous, fully closed handle is dropped
+				// (only a handle that was not dropped yet: dropping an already dropped, fully closed handle a second time
+				// while the name is being re-opened is use of a stale handle, outside the property - see DESIGN §12)
+				if m.cur == nil || m.ref != 0 || m.dropped {
+					return
+				}
+				h := m.cur
+				m.dropped = true
+				be.duringOpen = func() { h.Drop() }
+				be.failNext = o/2 == 6
+				st, err := p.OpenDB(name)
+				be.failNext, be.duringOpen = false, nil
+				if o/2 == 6 {
+					if err == nil || st != nil {
+						msg = "OpenDB succeeded although the backend failed"
+					}
+					return
+				}
+				if err != nil || st == nil {
+					msg = fmt.Sprintf("OpenDB error %v", err)
+					return
+				}
+				m.gen++
+				m.cur = st
+				m.ref++
+				m.opens++
+				m.dropped = false
 			case 4: // drop, with a second Drop issued from inside the backend's Drop
 				if m.cur == nil {
 					return
@@ -166,6 +205,7 @@ func run(c *core.Ctx, wrapper string, seq []int) (ok bool) {
 					is[len(is)-1].inDrop = func() { h.Drop() }
 				}
 				m.cur.Drop()
+				m.dropped = true
 				if is := be.insts[name]; len(is) > 0 {
 					is[len(is)-1].inDrop = nil
 				}
@@ -210,10 +250,10 @@ func main() {
 	c := core.New("C27", "model_checking")
 	depth := 6
 	if !c.Quick() {
-		depth = 8
+		depth = 8 // over the base alphabet; depth 7 over the full alphabet
 	}
 	c.Set("depth", depth)
-	c.Set("rule", "all sequences over {open,close,drop,open-with-failing-backend,drop-with-reentrant-drop} x {a,b} up to the depth bound, for Wrap and WrapAll; a handle is the latest store returned for the name (a closed-out handle is only re-used while the name is not open, i.e. to test over-closing)")
+	c.Set("rule", "all sequences over {open,close,drop,open-with-failing-backend,drop-with-reentrant-drop,close-with-failing-backend,open(-failing)-during-which-the-closed-handle-is-dropped} x {a,b} up to the depth bound, for Wrap and WrapAll; a handle is the latest store returned for the name (a closed-out handle is only re-used while the name is not open, i.e. to test over-closing)")
 	// work items: (wrapper, first two ops)
 	type item struct {
 		w    string
@@ -231,6 +271,7 @@ func main() {
 		it := items[i]
 		var n, states int64
 		seq := []int{it.a, it.b}
+		alpha, bound := nOps, depth
 		var rec func()
 		rec = func() {
 			n++
@@ -238,16 +279,25 @@ func main() {
 				return // prefix already violates; extensions add nothing
 			}
 			states++
-			if len(seq) == depth {
+			if len(seq) == bound {
 				return
 			}
-			for o := 0; o < nOps; o++ {
+			for o := 0; o < alpha; o++ {
 				seq = append(seq, o)
 				rec()
 				seq = seq[:len(seq)-1]
 			}
 		}
-		rec()
+		if c.Quick() {
+			rec()
+		} else {
+			if it.a < nOpsBase && it.b < nOpsBase {
+				alpha, bound = nOpsBase, depth
+				rec()
+			}
+			alpha, bound = nOps, depth-1
+			rec()
+		}
 		if it.a == 0 && it.b == 0 {
 			run(c, it.w, []int{it.a})
 			n++
